@@ -24,6 +24,12 @@ pub struct Recog {
     pub out: Vec<Op>,
     /// set when a D8 (declared don't-care) OSC shape was seen
     pub d8: bool,
+    /// CAN / SUB aborted a CSI (D10: whether that character is handed to draw() is not specified;
+    /// it matters only under a charset that maps 0x18 / 0x1a to a printable glyph)
+    pub d10_abort: bool,
+    /// indices into `out` of the (unmerged) text events holding an aborting CAN / SUB
+    pub d10_events: Vec<usize>,
+    no_merge: bool,
 }
 
 fn p0(v: &[u32], i: usize) -> Option<u32> {
@@ -32,15 +38,18 @@ fn p0(v: &[u32], i: usize) -> Option<u32> {
 
 impl Recog {
     pub fn new(utf8: bool) -> Recog {
-        Recog { st: St::Ground, utf8, out: Vec::new(), d8: false }
+        Recog { st: St::Ground, utf8, out: Vec::new(), d8: false, d10_abort: false, d10_events: Vec::new(), no_merge: false }
     }
 
     fn text(&mut self, c: char) {
-        if let Some(Op::Draw(s)) = self.out.last_mut() {
-            s.push(c);
-        } else {
-            self.out.push(Op::Draw(c.to_string()));
+        if !self.no_merge {
+            if let Some(Op::Draw(s)) = self.out.last_mut() {
+                s.push(c);
+                return;
+            }
         }
+        self.no_merge = false;
+        self.out.push(Op::Draw(c.to_string()));
     }
 
     fn c0(&mut self, c: char) -> bool {
@@ -158,7 +167,12 @@ impl Recog {
                 } else if c == '\x18' || c == '\x1a' {
                     // CAN / SUB abort the sequence. The character itself is handed to
                     // draw() by the documented parser (it never prints): D10.
+                    // its own event, never merged with the text around it
+                    self.no_merge = true;
                     self.text(c);
+                    self.no_merge = true;
+                    self.d10_abort = true;
+                    self.d10_events.push(self.out.len() - 1);
                     St::Ground
                 } else if c == '$' {
                     St::CsiDollar
@@ -256,6 +270,13 @@ pub fn recognise(s: &str, utf8: bool) -> (Vec<Op>, bool, bool) {
     r.feed(s);
     let g = r.in_ground();
     (r.out, g, r.d8)
+}
+
+/// like `recognise`, also reporting whether a CAN / SUB abort occurred (D10)
+pub fn recognise_d10(s: &str, utf8: bool) -> (Vec<Op>, bool, Vec<usize>) {
+    let mut r = Recog::new(utf8);
+    r.feed(s);
+    (r.out, r.d8, r.d10_events)
 }
 
 /// Can this character ever print (width > 0 or combining)? D10 strips the others.
